@@ -22,8 +22,9 @@
   `ncp->abuf != NULL` and the lengths of the pending request queues.  Everything an API decides from
   its *arguments* (is the varid in range, does the attribute exist, is the new name longer …) is an
   argument class of the `Call`; the harness chooses concrete arguments that realise the class on a
-  fixed schema.  Safe mode is off (the default build), one process or identical calls on all ranks;
-  I/O and memory allocation succeed (fault injection is C11's business).
+  fixed schema.  Safe mode is off (the default build; with it on, only `Cfg.fillChecksErr` changes);
+  every rank makes the same call (`Cfg.multi` = more than one rank); I/O and memory allocation
+  succeed (fault injection is C11's business).
 
   Core Lean only (this module is linked into the driver executable).
 -/
